@@ -34,6 +34,7 @@ type c02TraceEv struct {
 }
 
 func c02TraceOne(a vh.Args, o *vh.Oracle, r *vh.Result, c *c02Case) error {
+	r.Running(c)
 	blob := vh.UnHex(c.BlobHex)
 	desync.Digest = desync.SHA512256{}
 	name := filepath.Join(a.Work, "trace.blob")
